@@ -25,63 +25,76 @@
 (***************************************************************************)
 EXTENDS Integers, Sequences, FiniteSets, TLC, Json, FramingP
 
-CONSTANTS MaxLines, Tokens
+CONSTANTS MaxLines, Tokens,
+          Design     \* "scalar": the code's one 'first body index', overwritten by every "{" and reset at "}";
+                     \* "deque":  a WRONG design (seeded change C13j, written independently of this module): every "{"
+                     \*           appends its index to a queue, "}" pops the OLDEST one, nothing clears the queue when a
+                     \*           section closes - a stray "{" in one body makes every later section start inside an
+                     \*           earlier one.  It must violate OwnBlock.
 
 VARIABLES pc,        \* "write" | "scan" | "done"
           file,      \* the line tokens
           i,         \* scanner position (1-based index of the next line)
           tag,       \* "" = no open header, else the open header's tag
           first,     \* 0 = no "{" seen for the open header, else index of the first body line
-          sections,  \* insertion-ordered <<[tag, lo, hi]>>; overwriting keeps the position
-          outcome    \* "" | "ok" | "RegexNotMatchError"
+          sections,  \* insertion-ordered <<[tag, lo, hi, at, braced]>>; overwriting keeps the position
+          outcome,   \* "" | "ok" | "RegexNotMatchError"
+          hdrAt,     \* index of the open header's own line (0 = none): history, for OwnBlock
+          opens      \* the "deque" design's queue of body-start indices (stays <<>> in the "scalar" design)
 
-vars == <<pc, file, i, tag, first, sections, outcome>>
+vars == <<pc, file, i, tag, first, sections, outcome, hdrAt, opens>>
 
 Init == /\ pc = "write" /\ file = <<>> /\ i = 1 /\ tag = "" /\ first = 0
-        /\ sections = <<>> /\ outcome = ""
+        /\ sections = <<>> /\ outcome = "" /\ hdrAt = 0 /\ opens = <<>>
 
 Write(tok) == /\ pc = "write" /\ Len(file) < MaxLines
               /\ file' = Append(file, tok)
-              /\ UNCHANGED <<pc, i, tag, first, sections, outcome>>
+              /\ UNCHANGED <<pc, i, tag, first, sections, outcome, hdrAt, opens>>
 
 StartScan == /\ pc = "write" /\ pc' = "scan"
-             /\ UNCHANGED <<file, i, tag, first, sections, outcome>>
+             /\ UNCHANGED <<file, i, tag, first, sections, outcome, hdrAt, opens>>
 
-Store(secs, tg, lo, hi) ==
+Store(secs, tg, lo, hi, at, br) ==
+  LET rec == [tag |-> tg, lo |-> lo, hi |-> hi, at |-> at, braced |-> br] IN
   IF \E k \in DOMAIN secs : secs[k].tag = tg
-  THEN [k \in DOMAIN secs |-> IF secs[k].tag = tg THEN [tag |-> tg, lo |-> lo, hi |-> hi] ELSE secs[k]]
-  ELSE Append(secs, [tag |-> tg, lo |-> lo, hi |-> hi])
+  THEN [k \in DOMAIN secs |-> IF secs[k].tag = tg THEN rec ELSE secs[k]]
+  ELSE Append(secs, rec)
 
 Scan ==
   /\ pc = "scan" /\ i <= Len(file)
   /\ LET line == file[i] IN
      IF tag = ""
      THEN IF line \in Headers
-          THEN /\ tag' = TagOf(line) /\ i' = i + 1                          \* ReadHeader
-               /\ UNCHANGED <<first, sections, outcome, pc>>
+          THEN /\ tag' = TagOf(line) /\ i' = i + 1 /\ hdrAt' = i            \* ReadHeader
+               /\ UNCHANGED <<first, sections, outcome, pc, opens>>
           ELSE /\ outcome' = "RegexNotMatchError" /\ pc' = "done"           \* RejectHeader
-               /\ UNCHANGED <<i, tag, first, sections>>
+               /\ UNCHANGED <<i, tag, first, sections, hdrAt, opens>>
      ELSE IF line = "{"
           THEN /\ first' = i + 1 /\ i' = i + 1                              \* ReadOpen (the last "{" wins)
-               /\ UNCHANGED <<tag, sections, outcome, pc>>
+               /\ opens' = IF Design = "deque" THEN Append(opens, i + 1) ELSE opens
+               /\ UNCHANGED <<tag, sections, outcome, pc, hdrAt>>
      ELSE IF line = "}"
           THEN \* ReadClose: slice [first, i-1]; with no "{" seen the slice starts at the file's first line
-               /\ sections' = Store(sections, tag, IF first = 0 THEN 1 ELSE first, i - 1)
-               /\ tag' = "" /\ first' = 0 /\ i' = i + 1
+               /\ LET lo == IF Design = "deque" THEN (IF opens = <<>> THEN 1 ELSE Head(opens))
+                                                ELSE (IF first = 0 THEN 1 ELSE first)
+                  IN sections' = Store(sections, tag, lo, i - 1, hdrAt, first # 0)
+               /\ opens' = IF Design = "deque" /\ opens # <<>> THEN Tail(opens) ELSE opens
+               /\ tag' = "" /\ first' = 0 /\ i' = i + 1 /\ hdrAt' = 0
                /\ UNCHANGED <<outcome, pc>>
      ELSE /\ i' = i + 1                                                     \* ReadBody / ignored line
-          /\ UNCHANGED <<tag, first, sections, outcome, pc>>
+          /\ UNCHANGED <<tag, first, sections, outcome, pc, hdrAt, opens>>
   /\ UNCHANGED file
 
 EndOfFile == /\ pc = "scan" /\ i > Len(file)                                \* an unterminated section is dropped
              /\ pc' = "done" /\ outcome' = "ok"
-             /\ UNCHANGED <<file, i, tag, first, sections>>
+             /\ UNCHANGED <<file, i, tag, first, sections, hdrAt, opens>>
 
 Next == (\E tok \in Tokens : Write(tok)) \/ StartScan \/ Scan \/ EndOfFile
 Spec == Init /\ [][Next]_vars
 
 (****************************** A => P ***************************************)
-C06Framing == (pc = "done" /\ WellFormedFile(file)) => (outcome = "ok" /\ sections = SectionsOf(file))
+Plain(secs) == [k \in DOMAIN secs |-> [tag |-> secs[k].tag, lo |-> secs[k].lo, hi |-> secs[k].hi]]
+C06Framing == (pc = "done" /\ WellFormedFile(file)) => (outcome = "ok" /\ Plain(sections) = SectionsOf(file))
 
 \* totality (C18): the scan always ends, with one of the two outcomes, within Len(file) + 2 steps
 Total == /\ outcome \in {"", "ok", "RegexNotMatchError"}
@@ -89,6 +102,11 @@ Total == /\ outcome \in {"", "ok", "RegexNotMatchError"}
          /\ TLCGet("level") <= 2 * MaxLines + 3
 \* the scanner never stores a slice that reaches outside the file or runs backwards by more than one
 SliceSane == \A k \in DOMAIN sections : sections[k].lo >= 1 /\ sections[k].hi <= Len(file) /\ sections[k].hi >= sections[k].lo - 1
+
+\* C13, "the content of one instrument section never affects the parsed result of another", at the framing level: a section
+\* whose own "{" was seen receives lines from behind its OWN header only - whatever the bodies before it contain (exact "{"
+\* lines included: they restart that section's body and nothing else)
+OwnBlock == \A k \in DOMAIN sections : sections[k].braced => sections[k].lo > sections[k].at
 
 Emit == pc = "done" =>
           PrintT(ToJson([file |-> file, outcome |-> outcome,
